@@ -730,3 +730,160 @@ func (c *Ctx) keepFlagFromDescriptor(rule string) {
 		c.ok(rule, "completion callback", "-", "only constant flags")
 	}
 }
+
+// keepFlagNotNarrowed: R06.12. Every comparison the keep-context flag is computed from (followed through
+// descriptor fields to where they are filled, through helpers and short-circuit operators) is either
+// "the kind of a reflect type/value is Chan" or a test of an index against -1 / 0. A further conjunct
+// (nOut == 2, errOut != -1) leaves out legal signatures — func(ctx) <-chan T — whose subscriptions
+// then lose their context the moment the subscribing call returns.
+func (c *Ctx) keepFlagNotNarrowed(rule string) {
+	r := c.R
+	if r.FnDisp == nil {
+		return
+	}
+	for _, g := range c.region(r.FnDisp) {
+		allInstrsRaw(g, func(in ssa.Instruction) {
+			ci, ok := in.(ssa.CallInstruction)
+			if !ok || ci.Common().IsInvoke() {
+				return
+			}
+			if _, isParam := ci.Common().Value.(*ssa.Parameter); !isParam {
+				return
+			}
+			for _, a := range ci.Common().Args {
+				b, isB := a.Type().Underlying().(*types.Basic)
+				if !isB || b.Kind() != types.Bool {
+					continue
+				}
+				if _, isK := a.(*ssa.Const); isK {
+					continue
+				}
+				var foreign ssa.Instruction
+				kindSeen := false
+				seen := map[ssa.Value]bool{}
+				var walk func(v ssa.Value, d int)
+				walk = func(v ssa.Value, d int) {
+					if v == nil || seen[v] || d > 12 {
+						return
+					}
+					seen[v] = true
+					switch x := v.(type) {
+					case *ssa.BinOp:
+						switch x.Op {
+						case token.EQL, token.NEQ, token.LSS, token.LEQ, token.GTR, token.GEQ:
+							if isKindCall(x.X) || isKindCall(x.Y) {
+								kindSeen = true
+								return
+							}
+							if k, ok := constInt(stripConvInt(x.Y)); ok && (k == -1 || k == 0) {
+								return
+							}
+							if k, ok := constInt(stripConvInt(x.X)); ok && (k == -1 || k == 0) {
+								return
+							}
+							if foreign == nil {
+								foreign = x
+							}
+						case token.AND, token.OR, token.LAND, token.LOR:
+							walk(x.X, d+1)
+							walk(x.Y, d+1)
+						}
+					case *ssa.UnOp:
+						switch x.Op {
+						case token.NOT:
+							walk(x.X, d+1)
+						case token.MUL:
+							switch a := x.X.(type) {
+							case *ssa.FieldAddr:
+								if f := fieldOfAddr(a); f != nil {
+									for _, w := range c.liftedFieldWrites(f) {
+										walk(w.Val, d+1)
+									}
+								}
+							case *ssa.Alloc:
+								for _, ref := range *a.Referrers() {
+									if st, ok := ref.(*ssa.Store); ok && st.Addr == ssa.Value(a) {
+										walk(st.Val, d+1)
+									}
+								}
+							}
+						}
+					case *ssa.Field:
+						if f := fieldOfField(x); f != nil {
+							for _, w := range c.liftedFieldWrites(f) {
+								walk(w.Val, d+1)
+							}
+						}
+					case *ssa.Phi:
+						for _, e := range x.Edges {
+							walk(e, d+1)
+						}
+						blk := x.Block()
+						for _, pr := range blk.Preds {
+							for b := pr; b != nil; b = b.Idom() {
+								if iff, ok := b.Instrs[len(b.Instrs)-1].(*ssa.If); ok {
+									walk(iff.Cond, d+1)
+								}
+								if b == blk.Idom() {
+									break
+								}
+							}
+						}
+					case *ssa.Parameter:
+						fn := x.Parent()
+						for i, q := range fn.Params {
+							if q != x {
+								continue
+							}
+							for _, s := range c.P.syncCallers(fn) {
+								if i < len(s.Common().Args) {
+									walk(s.Common().Args[i], d+1)
+								}
+							}
+						}
+					case *ssa.Extract:
+						if call, ok := x.Tuple.(*ssa.Call); ok {
+							if callee := staticCallee(call); callee != nil && c.P.inTree(callee) {
+								for _, b := range callee.Blocks {
+									if ret, ok := b.Instrs[len(b.Instrs)-1].(*ssa.Return); ok && x.Index < len(ret.Results) {
+										walk(ret.Results[x.Index], d+1)
+									}
+								}
+							}
+						}
+					case *ssa.Call:
+						if callee := staticCallee(x); callee != nil && c.P.inTree(callee) {
+							for _, b := range callee.Blocks {
+								if ret, ok := b.Instrs[len(b.Instrs)-1].(*ssa.Return); ok && len(ret.Results) == 1 {
+									walk(ret.Results[0], d+1)
+								}
+							}
+						}
+					}
+				}
+				walk(a, 0)
+				if !kindSeen {
+					continue // not a flag derived from "is a channel": another rule's business
+				}
+				construct := fmt.Sprintf("%s: conditions the keep-context flag is computed from", fname(g))
+				if foreign != nil {
+					c.bad(rule, construct, c.ipos(foreign), "the keep-context flag is narrowed by a comparison other than 'the value result exists and is a channel' (e.g. the number of results): a channel-returning method of a shape that comparison leaves out — func(ctx) <-chan T — has its context cancelled and its cancel entry removed the moment the subscribing call returns")
+				} else {
+					c.ok(rule, construct, c.ipos(in), "only kind == Chan and index tests")
+				}
+			}
+		})
+	}
+}
+
+func isKindCall(v ssa.Value) bool {
+	call, ok := stripConvInt(v).(*ssa.Call)
+	if !ok {
+		return false
+	}
+	switch calleeName(call) {
+	case "(reflect.Value).Kind":
+		return true
+	}
+	return call.Common().IsInvoke() && call.Common().Method.Name() == "Kind" && isNamed(call.Common().Value.Type(), "reflect", "Type")
+}
